@@ -32,6 +32,8 @@ TicketTampers == {"flip-iv0", "flip-iv15", "flip-vers", "flip-suite", "flip-msle
 SidTampers == {"flip-id0", "flip-idN", "trunc-id", "cache-trunc", "cache-evict"}
 TampersFor(k) == IF k = "ticket" THEN TicketTampers ELSE IF k = "sid" THEN SidTampers ELSE {}
 KillsEntry(t) == t \in {"cache-trunc", "cache-evict"}
+\* a tamper kind that does not apply to the kind of session held leaves the offer untouched
+Eff(saved, t) == IF t \in TampersFor(saved.kind) THEN t ELSE "none"
 
 \* the hello / configuration of this connection in terms of Negotiate.tla
 NegCl(c) == [kind |-> c.kind, min |-> 10, max |-> c.max, suites |-> c.suites, scsv |-> FALSE, ecc |-> "ok",
@@ -62,7 +64,7 @@ CertGiven(c, e) == e.auth # "none" /\ c.cert
 WhyNot(c, e, saved, offer, tamper) ==
   LET a == Allowed(NegCl(c), NegSv(e)) IN
   IF ~Sent(c, saved, offer) THEN "nothing-offered"
-  ELSE IF tamper # "none" THEN "tampered"
+  ELSE IF Eff(saved, tamper) # "none" THEN "tampered"
   ELSE IF saved.kind = "ticket" /\ ~e.tickets THEN "tickets-disabled"
   ELSE IF saved.kind = "ticket" /\ saved.key # e.key THEN "old-key"
   ELSE IF saved.kind = "sid" /\ e.cache = 0 THEN "cache-disabled"
@@ -84,7 +86,7 @@ SavedAfter(c, e, saved, offer, tamper, n) ==
   LET resumed == MechResume(c, e, saved, offer, tamper)
       m == FullM(c, e)
       ok == OfferedKind(c, saved, offer)
-      base == IF ok = "sid" /\ KillsEntry(tamper) THEN NoSess ELSE saved
+      base == IF ok = "sid" /\ KillsEntry(Eff(saved, tamper)) THEN NoSess ELSE saved
   IN IF resumed \/ ~m.done THEN base
      ELSE IF TicketExt(c, ok) /\ e.tickets
           THEN [kind |-> "ticket", key |-> e.key, vers |-> m.vers, suite |-> m.suite, cert |-> CertGiven(c, e), from |-> n]
@@ -117,7 +119,7 @@ StepOK(c, e, saved, offer, tamper) ==
   LET o == ConnOut(c, e, saved, offer, tamper, 0) IN
   \* never forged, never from another key / cache, never when disabled
   /\ o.expM.resume => /\ o.expP.resume = "may"
-                      /\ tamper = "none"
+                      /\ Eff(saved, tamper) = "none"
                       /\ saved.kind = "ticket" => (e.tickets /\ saved.key = e.key)
                       /\ saved.kind = "sid" => (e.cache # 0 /\ saved.key = e.cache)
   \* keeps version and suite, which both sides still accept
